@@ -435,8 +435,35 @@ def check_nonempty(F, run):
                       sample="%s: %s under len > 1" % (b["name"], pp(n)[:40]))
 
 
+def check_trim_both_parts(F, run):
+    """R11.7 — products through the FFT branch and `idft` finish by trimming negligible leading coefficients (`purge_leading`): the degree-of-a-product clause
+    needs that trim to look at the whole coefficient.  A leading coefficient that is purely imaginary (i·a, a generic) must survive it; exact zeros behind it go."""
+    try:
+        pl = PI.poly_method(F, "purge_leading")
+    except Missing as m:
+        run.broken("R11.7", "Polynomial::purge_leading", "anchor", "src/polynomial/mod.rs", str(m))
+        return
+    run.analysed(pl)
+    for n in (2, 3):
+        cs = PI.with_imaginary_lead("a", n)
+        for extra, label in (([], "imaginary-lead,len=%d" % n), ([sp.Integer(0)], "imaginary-lead+0,len=%d" % n)):
+            Pm = PI.poly(list(cs) + extra)
+            try:
+                PI.call(F, pl, [Pm])
+            except vecint.IndexPanic as e:
+                run.fail("R11.7", "Polynomial::purge_leading", "panic:" + label, F.loc(pl), "abstract execution panics: %s" % e.why)
+                continue
+            except sym.Unsupported as u:
+                run.broken("R11.7", "Polynomial::purge_leading", label, F.loc(pl), str(u))
+                continue
+            run.check(len(PI.coeffs(Pm)) == n, "R11.7", "Polynomial::purge_leading", "keeps-imaginary-lead:" + label, F.loc(pl),
+                      "the trim that ends every FFT product / inverse transform removes a purely imaginary leading coefficient (%d of %d coefficients left): the product of "
+                      "complex polynomials loses its degree" % (len(PI.coeffs(Pm)), n), sample="purge_leading keeps i·a (%s)" % label)
+
+
 def run(F, run, tier):
     check_operator_families(F, run, tier)
+    check_trim_both_parts(F, run)
     check_multiply(F, run, tier)
     check_transform_size(F, run)
     check_dft(F, run, tier)
